@@ -12,6 +12,9 @@ def step (line : String) : String :=
   | "xev" :: args => runXev args
   | "mparse" :: args => runMparse args
   | "eparse" :: args => runEparse args
+  | "req" :: args => runReq args
+  | "expand" :: args => runExpand args
+  | "urlhelpers" :: args => runUrlHelpers args
   | _ => "bad-op"
 
 partial def loop (h : IO.FS.Stream) (out : IO.FS.Stream) : IO Unit := do
